@@ -432,13 +432,8 @@ theorem openStep_spec (i : Nat) (v : Str) (objs : List LTok) (inside : Bool) (hv
   · exact ⟨(hv.set_same _).1, (hv.set_same _).2, by simp⟩
   · exact ⟨rfl, hv, rfl⟩
 
-/-- the state in which `closeStep` at index 0 reads and overwrites the last token -/
-def CloseBad (v : Str) (s : CState) : Prop :=
-  s.inside = true ∧ v = slash ∧ ∃ p, s.objs[s.objs.length - 1]? = some p ∧ p.val.getLast? = some '*'
-
 theorem closeStep_flatten (i : Nat) (v : Str) (s s' : CState) (h : closeStep i v s = some s')
-    (hv : ValAt s.objs i v) (hbad : i = 0 → ¬ CloseBad v s) :
-    (vals s'.objs).flatten = (vals s.objs).flatten := by
+    (hv : ValAt s.objs i v) : (vals s'.objs).flatten = (vals s.objs).flatten := by
   unfold closeStep at h
   split at h
   · simp only [Option.some.injEq] at h
@@ -446,7 +441,7 @@ theorem closeStep_flatten (i : Nat) (v : Str) (s s' : CState) (h : closeStep i v
     rw [(hv.set_same _).1]
   · split at h
     · rename_i _ hc
-      simp only [Bool.and_eq_true, beq_iff_eq] at hc
+      simp only [Bool.and_eq_true, beq_iff_eq, decide_eq_true_eq] at hc
       cases hp : s.objs[prevIdx i s.objs.length]? with
       | none => simp [hp] at h
       | some p =>
@@ -455,10 +450,7 @@ theorem closeStep_flatten (i : Nat) (v : Str) (s s' : CState) (h : closeStep i v
         · rename_i hstar
           simp only [beq_iff_eq] at hstar
           cases i with
-          | zero =>
-            exfalso
-            apply hbad rfl
-            exact ⟨hc.1, hc.2, p, by simpa [prevIdx] using hp, hstar⟩
+          | zero => exact absurd hc.1.2 (by omega)
           | succ i =>
             have hj : prevIdx (i + 1) s.objs.length = i := by simp [prevIdx]
             rw [hj] at h hp
@@ -496,35 +488,8 @@ theorem closeStep_total (i : Nat) (v : Str) (s : CState) (hi : i < s.objs.length
       · exact ⟨_, rfl, rfl⟩
     · exact ⟨_, rfl, rfl⟩
 
-/-- the state in which iteration 0 of `comment.classify` is lossy -/
-def IterBad (s : CState) : Prop :=
-  s.inside = true ∧ s.objs[0]?.map (·.val) = some slash ∧
-    ∃ l, s.objs.getLast? = some l ∧ l.val.getLast? = some '*'
-
-theorem closeBad_iterBad (o : LTok) (s : CState) (ho : s.objs[0]? = some o)
-    (h : CloseBad o.val (openStep 0 o.val (textStep 0 o s) s.inside)) : IterBad s := by
-  obtain ⟨hin, hv, p, hp, hstar⟩ := h
-  have hns : (o.val == slashStar) = false := by rw [hv]; decide
-  have hos : openStep 0 o.val (textStep 0 o s) s.inside = ⟨textStep 0 o s, s.inside⟩ := by
-    simp [openStep, hns]
-  rw [hos] at hin hp
-  simp only at hin hp
-  refine ⟨hin, by rw [ho, ← hv]; rfl, ?_⟩
-  have hlen := (textStep_spec 0 o s ho).2.2
-  rw [hlen] at hp
-  simp only [textStep, hin, if_true] at hp
-  by_cases h0 : s.objs.length - 1 = 0
-  · exfalso
-    rw [h0, List.getElem?_set_self (List.getElem?_eq_some_iff.1 ho).1] at hp
-    simp only [Option.some.injEq] at hp
-    subst hp
-    rw [hv] at hstar
-    simp [slash] at hstar
-  · rw [List.getElem?_set_ne (by omega)] at hp
-    exact ⟨p, by rw [List.getLast?_eq_getElem?]; exact hp, hstar⟩
-
 theorem commentIter_flatten (T : LexTables) (i : Nat) (s s' : CState) (b : Bool)
-    (h : commentIter T i s = some (s', b)) (hbad : i = 0 → ¬ IterBad s) :
+    (h : commentIter T i s = some (s', b)) :
     (vals s'.objs).flatten = (vals s.objs).flatten := by
   unfold commentIter at h
   cases ho : s.objs[i]? with
@@ -547,9 +512,6 @@ theorem commentIter_flatten (T : LexTables) (i : Nat) (s s' : CState) (b : Bool)
         simp only [hc, Option.some.injEq, Prod.mk.injEq] at h
         rw [← h.1]
         rw [closeStep_flatten i o.val _ s'' hc ho2, ho1, ht1]
-        intro hi hb
-        subst hi
-        exact hbad rfl (closeBad_iterBad o s ho hb)
 
 theorem commentIter_total (T : LexTables) (i : Nat) (s : CState) (hi : i < s.objs.length) :
     ∃ s' b, commentIter T i s = some (s', b) ∧ (b = false → s'.objs.length = s.objs.length) := by
@@ -570,7 +532,7 @@ theorem commentIter_total (T : LexTables) (i : Nat) (s : CState) (hi : i < s.obj
     exact ⟨s'', false, rfl, fun _ => by omega⟩
 
 theorem commentLoop_flatten (T : LexTables) (k i : Nat) (s s' : CState)
-    (h : commentLoop T k i s = some s') (hbad : i = 0 → ¬ IterBad s) :
+    (h : commentLoop T k i s = some s') :
     (vals s'.objs).flatten = (vals s.objs).flatten := by
   induction k generalizing i s with
   | zero => simp only [commentLoop, Option.some.injEq] at h; subst h; rfl
@@ -580,12 +542,12 @@ theorem commentLoop_flatten (T : LexTables) (k i : Nat) (s s' : CState)
     | none => simp [hc] at h
     | some r =>
       obtain ⟨s1, b⟩ := r
-      have hf := commentIter_flatten T i s s1 b hc hbad
+      have hf := commentIter_flatten T i s s1 b hc
       cases b with
       | true => simp only [hc, Option.some.injEq] at h; subst h; exact hf
       | false =>
         simp only [hc] at h
-        rw [ih (i + 1) s1 h (by intro h0; omega), hf]
+        rw [ih (i + 1) s1 h, hf]
 
 theorem commentLoop_total (T : LexTables) (k i : Nat) (s : CState) (h : i + k ≤ s.objs.length) :
     ∃ s', commentLoop T k i s = some s' := by
@@ -694,8 +656,7 @@ theorem vals_pragmaClassify (rx : PragmaRx) (region : Bool) (objs : List LTok) :
 /-! ### comment.classify, one line -/
 
 theorem commentClassify_flatten (T : LexTables) (toks : List Str) (objs r : List LTok) (inside ins' : Bool)
-    (h : commentClassify T toks objs inside = some (r, ins'))
-    (hbad : toks.length ≠ 0 → ¬ IterBad ⟨objs, inside⟩) : (vals r).flatten = (vals objs).flatten := by
+    (h : commentClassify T toks objs inside = some (r, ins')) : (vals r).flatten = (vals objs).flatten := by
   unfold commentClassify at h
   simp only at h
   split at h
@@ -707,23 +668,7 @@ theorem commentClassify_flatten (T : LexTables) (toks : List Str) (objs r : List
         (vals objs).flatten := by
       split <;> simp [vals]
     rw [← h0]
-    cases htk : toks.length with
-    | zero =>
-      rw [htk] at hs
-      simp only [commentLoop, Option.some.injEq] at hs
-      rw [← hs]
-    | succ n =>
-      apply commentLoop_flatten T _ 0 _ s hs
-      intro _ hb
-      by_cases hl : (objs.length = 0 && inside) = true
-      · simp only [hl, if_true] at hb
-        simp only [Bool.and_eq_true, decide_eq_true_eq] at hl
-        have : objs = [] := List.length_eq_zero_iff.1 hl.1
-        subst this
-        obtain ⟨_, h0', _⟩ := hb
-        simp [slash] at h0'
-      · simp only [hl] at hb
-        exact hbad (by omega) hb
+    exact commentLoop_flatten T _ 0 _ s hs
 
 theorem commentClassify_total (T : LexTables) (toks : List Str) (objs : List LTok) (inside : Bool)
     (hlen : toks.length ≤ objs.length) : ∃ r, commentClassify T toks objs inside = some r := by
@@ -741,18 +686,9 @@ theorem commentClassify_total (T : LexTables) (toks : List Str) (objs : List LTo
 
 /-! ### one line -/
 
-theorem iterBad_slashStarLine (T : LexTables) (st : LState) (raw : Str) (objs : List LTok)
-    (hv : vals objs = create T (stripNlCr raw)) (h : IterBad ⟨objs, st.inside⟩) : SlashStarLine T st raw := by
-  obtain ⟨hin, h0, l, hl, hstar⟩ := h
-  refine ⟨hin, ?_, l.val, ?_, hstar⟩
-  · rw [← hv, List.head?_eq_getElem?, vals_getElem?]; exact h0
-  · rw [← hv]; simp only [vals, List.getLast?_map]
-    simp only at hl
-    rw [hl]; rfl
-
 theorem classifyLine_flatten (T : LexTables) (hbd : ∀ c, T.lowerBoxd c = true → T.isDigit c = false)
     (rx : PragmaRx) (st st' : LState) (raw : Str) (objs : List LTok)
-    (h : classifyLine T rx st raw = some (objs, st')) (hok : ¬ SlashStarLine T st raw) :
+    (h : classifyLine T rx st raw = some (objs, st')) :
     (vals objs).flatten = stripNlCr raw := by
   unfold classifyLine at h
   simp only at h
@@ -773,11 +709,6 @@ theorem classifyLine_flatten (T : LexTables) (hbd : ∀ c, T.lowerBoxd c = true 
       · rfl
     rw [preprocClassify_flatten _ _ _, hcf]
     rw [commentClassify_flatten T _ _ objs3 _ inside' hc, h2]
-    intro hne hb
-    apply hok
-    apply iterBad_slashStarLine T st raw _ _ hb
-    rw [hv]
-    simp [hne]
 
 theorem classifyLine_total (T : LexTables) (rx : PragmaRx) (st : LState) (raw : Str) :
     ∃ r, classifyLine T rx st raw = some r := by
@@ -1148,7 +1079,7 @@ theorem processLines_total (T : LexTables) (rx : Str → PragmaRx) (st : LState)
 
 theorem splitGo_processLines (T : LexTables) (hbd : ∀ c, T.lowerBoxd c = true → T.isDigit c = false)
     (rx : Str → PragmaRx) (st : LState) (ls : List Str) (objs : List LTok)
-    (h : processLines T rx st ls = some objs) (hok : LinesOk T rx st ls) :
+    (h : processLines T rx st ls = some objs) :
     (splitGo LTok.isCr objs []).map (fun g => (g.map (·.val)).flatten) = ls.map stripNlCr := by
   induction ls generalizing st objs with
   | nil =>
@@ -1166,7 +1097,6 @@ theorem splitGo_processLines (T : LexTables) (hbd : ∀ c, T.lowerBoxd c = true 
       | some rest =>
         simp only [h2, Option.some.injEq] at h
         subst h
-        simp only [LinesOk, h1] at hok
         have hn := noCr_classifyLine T (rx l) st st' l lo h1
         rw [splitGo_line LTok.isCr lo crTok rest [] (by
           intro t ht
@@ -1174,35 +1104,16 @@ theorem splitGo_processLines (T : LexTables) (hbd : ∀ c, T.lowerBoxd c = true 
           simp only [LTok.isCr, beq_eq_false_iff_ne, ne_eq]
           exact this) rfl]
         simp only [List.nil_append, List.map_cons]
-        rw [ih st' rest h2 hok.2]
+        rw [ih st' rest h2]
         congr 1
-        exact classifyLine_flatten T hbd (rx l) st st' l lo h1 hok.1
+        exact classifyLine_flatten T hbd (rx l) st st' l lo h1
 
 theorem getLinesL_processLines (T : LexTables) (hbd : ∀ c, T.lowerBoxd c = true → T.isDigit c = false)
     (rx : Str → PragmaRx) (st : LState) (ls : List Str) (objs : List LTok)
-    (h : processLines T rx st ls = some objs) (hok : LinesOk T rx st ls) :
+    (h : processLines T rx st ls = some objs) :
     getLinesL objs = [] :: ls.map stripNlCr := by
   unfold getLinesL getLinesG splitOnCr
-  rw [splitGo_processLines T hbd rx st ls objs h hok]
-
-/-- a sufficient condition that does not mention the state: no line's first token is `/` -/
-theorem linesOk_of_no_leading_slash (T : LexTables) (rx : Str → PragmaRx) (st : LState) (ls : List Str)
-    (h : ∀ l ∈ ls, (create T (stripNlCr l)).head? ≠ some slash) : LinesOk T rx st ls := by
-  induction ls generalizing st with
-  | nil => trivial
-  | cons l ls ih =>
-    simp only [LinesOk]
-    refine ⟨fun hb => h l (List.mem_cons_self ..) hb.2.1, ?_⟩
-    split
-    · trivial
-    · exact ih _ (fun l' hl' => h l' (List.mem_cons_of_mem _ hl'))
-
-/-- … nor while no delimited comment is open -/
-theorem not_slashStarLine_outside (T : LexTables) (st : LState) (raw : Str) (h : st.inside = false) :
-    ¬ SlashStarLine T st raw := by
-  intro hb
-  rw [hb.1] at h
-  cases h
+  rw [splitGo_processLines T hbd rx st ls objs h]
 
 /-! ### blank lines -/
 
